@@ -484,7 +484,7 @@ impl Property for C17c {
         case_strategy(tier)
     }
     fn budget(&self, tier: Tier) -> Budget {
-        Budget::new(tier.pick(100_000, 2_000_000), tier.pick(8, 16)).min_nontrivial(tier.pick(10_000, 200_000)).case_timeout(60)
+        Budget::new(tier.pick(100_000, 6_000_000), tier.pick(8, 16)).min_nontrivial(tier.pick(10_000, 500_000)).case_timeout(60)
     }
     fn rule(&self) -> String {
         "pool (base x wrapper, L) + 1-3 shared Arc'ed reservations of 1-3 consumers + 2-3 actor scripts of 1-4 ops {try_grow, grow, try_shrink, free, try_resize, own-consumer, fork(new_empty/split(0))} + a schedule with <= 3 (thorough 4) \
